@@ -468,15 +468,26 @@ func (p *Parser) parseSimpleExpression() (IEvaluator, *Error) {
 
 	expr := new(simpleExpression)
 
-	negative := false
+	negative, prefixed := false, false
 	if sign := p.MatchOne(TokenSymbol, "+", "-"); sign != nil {
+		prefixed = true
 		if sign.Val == "-" {
 			negative = true
 		}
 	}
 
 	if p.Match(TokenSymbol, "!") != nil || p.Match(TokenKeyword, "not") != nil {
+		prefixed = true
 		expr.negate = true
+	}
+
+	if prefixed {
+		// (the node that carries the sign or the negation stays in the tree: one more
+		// level when it is evaluated)
+		operands++
+		if err := p.deeper(1); err != nil {
+			return nil, err
+		}
 	}
 
 	// The minus sign belongs to the first factor of the term: -a * b is (-a) * b, which
@@ -545,7 +556,11 @@ func (p *Parser) parseRelationalExpression() (IEvaluator, *Error) {
 		expr.opToken = t
 		expr.expr2 = expr2
 	} else if t := p.MatchOne(TokenKeyword, "in"); t != nil {
+		if err := p.deeper(1); err != nil {
+			return nil, err
+		}
 		expr2, err := p.parseSimpleExpression()
+		p.depth--
 		if err != nil {
 			return nil, err
 		}
